@@ -119,6 +119,9 @@ type handler struct {
 	infra    []string
 	mu       sync.Mutex
 	sampled  int32
+	// Generate steps / second runs under a configuration whose autobind list contains the model output package
+	abGens, abProbes int
+	abSampled        bool
 }
 
 func (h *handler) addInfra(s string) {
@@ -294,13 +297,28 @@ func (h *handler) judge(recs []*projgen.StepRec) (accepted, violating, drift int
 			if rec.Drift {
 				drift++
 			}
-			h.c.Class("gen:" + rec.Pre.Cfg.Rl + "/" + rec.Pre.Cfg.El + ":" + rec.Pre.Dirty)
+			ab := rec.Pre.Cfg.Ab
+			if ab == "" {
+				ab = "none"
+			}
+			if ab != "none" {
+				h.abGens++
+			}
+			h.c.Class("gen:" + rec.Pre.Cfg.Rl + "/" + rec.Pre.Cfg.El + "/autobind-model-pkg=" + ab + ":" + rec.Pre.Dirty)
 		case "probe":
 			label := "history: " + projgen.PathString(rec.Path) + fmt.Sprintf("  [resolver layout %s, exec layout %s]", rec.Pre.Cfg.Rl, rec.Pre.Cfg.El)
 			if len(rec.Path) == 0 {
 				label = fmt.Sprintf("freshly generated project [resolver layout %s, exec layout %s]", rec.Pre.Cfg.Rl, rec.Pre.Cfg.El)
 			}
 			replay := projgen.ReplayObject(rec)
+			if rec.Pre.Cfg.Ab != "" && rec.Pre.Cfg.Ab != "none" {
+				h.abProbes++
+				label += fmt.Sprintf("  [autobind lists the model output package graph/model (%s)]", map[string]string{"model": "which holds only a doc file next to models_gen.go", "hand": "which holds the hand-written model Account next to models_gen.go"}[rec.Pre.Cfg.Ab])
+				if !h.abSampled && rec.Gen != nil && rec.Gen.OK() {
+					h.abSampled = true
+					h.c.Sample(map[string]any{"history": projgen.PathString(rec.Path), "cfg": rec.Pre.Cfg, "what": "Generate run again on the tree holding the previous models_gen.go inside an autobound package", "outcome": rec.Gen.Class})
+				}
+			}
 			genChanged, _ := rec.Extra["genChanged"].([]string)
 			resChanged, _ := rec.Extra["resChanged"].([]string)
 			bad := false
@@ -762,11 +780,15 @@ func main() {
 	if h.steps == 0 || h.probes == 0 {
 		vlib.Infra("vacuous: no Generate step replayed")
 	}
+	if h.abProbes == 0 {
+		vlib.Infra("vacuous: no second run under a configuration that autobinds the model output package")
+	}
 	c.AddStates(mc.Distinct, mc.Generated)
 	c.AddTraces(int64(n))
 	c.Set("rule", "seeded sample of Generate edges of the Project.tla state graph (all four layout combinations) reached by their BFS-shortest histories, plus feature-rich schemas from the C17 renderer; each Generate step = one evaluation, executed in several processes (GOMAXPROCS, start directory, clean / previous-output tree varied; verdict = hash equality) and once more with nothing edited (verdict = TLC evaluates the postcondition Idempotent of the intended design on the observed pre/post states, plus byte equality of generated files); a class = (layouts, kind of edits since last run, deviations) or a feature row")
-	c.Set("processes", map[string]any{"generator_processes": h.runs + rep.Stats.Inits, "variants_per_step": len(h.variants), "second_run_probes": h.probes, "second_runs_accepted": accepted, "second_runs_violating": violating, "impl_level_drift": drift, "tour_model_deviations": curDevs, "second_runs_dropping_only_warning_block": h.warnOnly, "rich_schemas": nRich, "cycle_schema_configurations": nCyc, "processes_per_cycle_configuration": nCycProc + 1})
+	c.Set("processes", map[string]any{"generator_processes": h.runs + rep.Stats.Inits, "variants_per_step": len(h.variants), "second_run_probes": h.probes, "second_runs_accepted": accepted, "second_runs_violating": violating, "impl_level_drift": drift, "tour_model_deviations": curDevs, "second_runs_dropping_only_warning_block": h.warnOnly, "generate_steps_with_autobound_model_package": h.abGens, "second_runs_with_autobound_model_package": h.abProbes, "rich_schemas": nRich, "cycle_schema_configurations": nCyc, "processes_per_cycle_configuration": nCycProc + 1})
 	c.Set("gen_function_conflicts", h.genConfl)
+	c.Assume("configurations: all four (resolver layout x exec layout) combinations without autobind, plus two whose autobind list contains the model output package graph/model (with / without a hand-written model in it): there every Generate of a history - and the second run after it - loads the package holding the previous models_gen.go; a second run that fails is C18:second-run-fails, a Generate whose outcome differs between the tree holding previous output and the tree without generated files is C18:outcome-depends-on-run-parameters")
 	c.Assume("map-order nondeterminism is probabilistic: a missing sort over k >= 3 keys escapes one comparison of two processes with probability <= 1/k!; the number of process starts is reported")
 	c.Assume("idempotence is demanded for every file except that the trailing WARNING block of a resolver file is, by gqlgen's design and by the C19 statement, the content of the last run only: a second run removes it (spec/Project.tla Idempotent)")
 	c.Assume("gen' = F(schema, cfg) is checked by TLC on the model; on the code it is only recorded (gen_function_conflicts), because the statement allows generated files to depend on Go sources")
